@@ -134,7 +134,15 @@ type c31Case struct {
 	B     *agent.Config `json:"b,omitempty"`
 	C     *agent.Config `json:"c,omitempty"`
 	Paths []c31Entry    `json:"paths,omitempty"`
+	// Spare: unused capacity behind the end of every non-nil list handed to
+	// MergeConfig (filled with a sentinel). JSON cannot express capacity, the
+	// callers' slices can have it (anything built with append has).
+	Spare int `json:"spare,omitempty"`
+	// SameAB: Merge(a,a) is judged too - one object passed as both arguments
+	SameAB bool `json:"same_ab,omitempty"`
 }
+
+const c31Sentinel = "\x00spare capacity of an input list"
 
 var (
 	c31Strs    = []string{"x", "y", "z", "10.0.0.1:7946"}
@@ -304,12 +312,18 @@ func genC31(t *rapid.T) c31Case {
 	if rapid.IntRange(0, 3).Draw(t, "mode") == 3 {
 		return c31Case{Mode: 1, Paths: c31GenPaths(t)}
 	}
-	return c31Case{Mode: 0, A: c31GenConfig(t), B: c31GenConfig(t), C: c31GenConfig(t)}
+	return c31Case{Mode: 0, A: c31GenConfig(t), B: c31GenConfig(t), C: c31GenConfig(t),
+		Spare:  rapid.SampledFrom([]int{0, 1, 4, 4}).Draw(t, "spare"),
+		SameAB: rapid.IntRange(0, 7).Draw(t, "sameab") == 0}
 }
 
 // ---- helpers
 
-func c31DeepCopy(c *agent.Config) *agent.Config {
+func c31DeepCopy(c *agent.Config) *agent.Config { return c31DeepCopyCap(c, 0) }
+
+// c31DeepCopyCap: a deep copy whose non-nil lists have spare elements of
+// unused capacity, filled with a sentinel.
+func c31DeepCopyCap(c *agent.Config, spare int) *agent.Config {
 	out := *c
 	c31Leaves(reflect.ValueOf(&out).Elem(), "", func(p string, f reflect.Value) {
 		switch f.Kind() {
@@ -324,9 +338,12 @@ func c31DeepCopy(c *agent.Config) *agent.Config {
 			}
 		case reflect.Slice:
 			if !f.IsNil() {
-				s := reflect.MakeSlice(f.Type(), f.Len(), f.Len())
+				s := reflect.MakeSlice(f.Type(), f.Len()+spare, f.Len()+spare)
 				reflect.Copy(s, f)
-				f.Set(s)
+				for i := f.Len(); i < s.Len(); i++ {
+					s.Index(i).SetString(c31Sentinel)
+				}
+				f.Set(s.Slice(0, f.Len()))
 			}
 		}
 	})
@@ -371,13 +388,75 @@ func c31FirstDiff(a, b *agent.Config) string {
 	return ""
 }
 
+// c31SpareTouched names the first input list whose unused capacity no longer
+// holds the sentinel: the merge wrote into memory that belongs to its input.
+func c31SpareTouched(c *agent.Config) string {
+	bad := ""
+	c31Leaves(reflect.ValueOf(c).Elem(), "", func(p string, f reflect.Value) {
+		if f.Kind() != reflect.Slice || f.IsNil() || bad != "" {
+			return
+		}
+		full := f.Slice(0, f.Cap())
+		for i := f.Len(); i < full.Len(); i++ {
+			if full.Index(i).String() != c31Sentinel {
+				bad = fmt.Sprintf("%s (element %d behind its %d elements now holds %q)", p, i, f.Len(), full.Index(i).String())
+				return
+			}
+		}
+	})
+	return bad
+}
+
+// c31Other: a configuration that sets every list, tag and plain string setting
+// of c to something else (used for the "an earlier result stays what it was" probe).
+func c31Other(c *agent.Config) *agent.Config {
+	out := c31DeepCopy(c)
+	c31Leaves(reflect.ValueOf(out).Elem(), "", func(p string, f reflect.Value) {
+		switch c31Rules[p] {
+		case c31List:
+			f.Set(reflect.ValueOf([]string{"other-1", "other-2", "other-3"}))
+		case c31Tags:
+			f.Set(reflect.ValueOf(map[string]string{"role": "other", "dc": "other", "k": "other", "other": "other"}))
+		case c31Value:
+			if f.Kind() == reflect.String {
+				f.SetString("other")
+			}
+		}
+	})
+	return out
+}
+
 // c31Merge runs the real MergeConfig on private copies of a and b and judges
-// that one call: inputs untouched, every setting per the rule table.
-func c31Merge(x *vkit.Ctx, what string, a, b *agent.Config) (*agent.Config, bool) {
-	a1, b1 := c31DeepCopy(a), c31DeepCopy(b)
+// that one call: inputs untouched (including the unused capacity of their
+// lists), every setting per the rule table, and the result still the same
+// value after the same earlier source has been merged with something else.
+func c31Merge(x *vkit.Ctx, what string, a, b *agent.Config, spare int, sameArg bool) (*agent.Config, bool) {
+	a1, b1 := c31DeepCopyCap(a, spare), c31DeepCopyCap(b, spare)
+	if sameArg {
+		b, b1 = a, a1 // one object as both arguments
+	}
 	got := agent.MergeConfig(a1, b1)
 	if got == nil {
 		x.Violationf("merge-nil", "%s: MergeConfig returned nil", what)
+		return nil, false
+	}
+	if l := c31SpareTouched(a1); l != "" {
+		x.Violationf("input-memory-written:earlier", "%s: MergeConfig wrote into the unused capacity of its first argument's list %s", what, l)
+		return nil, false
+	}
+	if l := c31SpareTouched(b1); l != "" {
+		x.Violationf("input-memory-written:later", "%s: MergeConfig wrote into the unused capacity of its second argument's list %s", what, l)
+		return nil, false
+	}
+	// what the next calls (or a restart of the caller's loop) leave behind: the
+	// value returned by this merge must not change when the same sources are
+	// merged again with something else
+	snap := c31DeepCopy(got)
+	_ = agent.MergeConfig(a1, c31Other(b))
+	_ = agent.MergeConfig(c31Other(a), b1)
+	if p := c31FirstDiff(snap, got); p != "" {
+		x.Violationf("result-changed-by-later-merge:"+p, "%s: the merged configuration had %s = %v; after two more MergeConfig calls on the same sources it has %v (results share memory)",
+			what, p, c31Field(snap, p).Interface(), c31Field(got, p).Interface())
 		return nil, false
 	}
 	if p := c31FirstDiff(a, a1); p != "" {
@@ -496,19 +575,32 @@ func bodyC31(c c31Case, x *vkit.Ctx) {
 	}
 	x.NonTrivial(conflict && tagOverlap)
 
-	ab, ok := c31Merge(x, "Merge(a,b)", c.A, c.B)
+	if c.Spare < 0 || c.Spare > 64 {
+		x.Inconclusive("malformed case")
+		return
+	}
+	if c.Spare > 0 {
+		x.Label("input-lists-with-spare-capacity")
+	}
+	if c.SameAB {
+		x.Label("same-object-as-both-arguments")
+		if _, ok := c31Merge(x, "Merge(a,a)", c.A, c.A, c.Spare, true); !ok {
+			return
+		}
+	}
+	ab, ok := c31Merge(x, "Merge(a,b)", c.A, c.B, c.Spare, false)
 	if !ok {
 		return
 	}
-	left, ok := c31Merge(x, "Merge(Merge(a,b),c)", ab, c.C)
+	left, ok := c31Merge(x, "Merge(Merge(a,b),c)", ab, c.C, c.Spare, false)
 	if !ok {
 		return
 	}
-	bc, ok := c31Merge(x, "Merge(b,c)", c.B, c.C)
+	bc, ok := c31Merge(x, "Merge(b,c)", c.B, c.C, c.Spare, false)
 	if !ok {
 		return
 	}
-	right, ok := c31Merge(x, "Merge(a,Merge(b,c))", c.A, bc)
+	right, ok := c31Merge(x, "Merge(a,Merge(b,c))", c.A, bc, c.Spare, false)
 	if !ok {
 		return
 	}
